@@ -68,8 +68,6 @@ def jExc (f : α → Json) : Except PyErr α → Json
 
 def jBool (b : Bool) : Json := Json.bool b
 
-/-- a fuel that is ample for `k` objects: at most `2^k` concepts, each pushing at most `k` combinations -/
-def fuelFor (k : Nat) : Nat := 4 * (k + 1) * 2 ^ k + 100
 
 /-- `{"op":"C14.ext","K":..,"descs":[..],"bases":[null|[..],..]}` → for every description and every base:
     model (with errors), spec filter, well-typedness -/
@@ -134,8 +132,10 @@ def latH : Handler := fun j => do
   let closed := sortLists K.closedSets
   let covers := (List.range closed.length).flatMap fun i =>
     (Spec.lowerCovers closed i).map fun c => jNats [i, c]
-  let fuel := fuelFor (max K.nObjects K.nBinAttrs |>.min 16)
-  let paths := thrs.map fun thr => Json.mkObj [
+  -- the fuel is the proved sufficient one (`Fca.C14.mv_lattice_exact`): `MVCtx.closeByOneFuel`
+  let paths := thrs.map fun thr =>
+    let fuel := K.closeByOneFuel thr
+    Json.mkObj [
     ("thr", Json.num (JsonNumber.fromNat thr)),
     ("path", Json.str (pathName (K.choosePath thr))),
     ("cbo", jExc (fun cs => Json.arr (cs.map jPC).toArray) (K.closeByOne thr fuel)),
